@@ -321,7 +321,6 @@ func VerifSections() {
 	}
 }
 
-
 // VerifSectionsNested: a multipart whose first part is itself a multipart - with the parent's boundary, another
 // one, or a message/rfc822 wrapper - followed by further parts of the parent; arbitrary bytes between the
 // delimiters.  Whatever the inner scanner makes of it, every reported part lies inside its parent.
